@@ -44,6 +44,12 @@ def rename_fields(fields, resources=None, regex=True):
                             renames[res_name][sf_name] = target_name
                             sf['name'] = target_name
                             break
+                # the primary key follows the fields it names
+                pk = resource['schema'].get('primaryKey')
+                if isinstance(pk, str):
+                    resource['schema']['primaryKey'] = renames[res_name].get(pk, pk)
+                elif pk:
+                    resource['schema']['primaryKey'] = [renames[res_name].get(k, k) for k in pk]
         not_matched = [
             src.pattern for src, _ in field_res
             if src.pattern not in matched
